@@ -62,7 +62,7 @@ def classify(cls, line, run_first, run):
                 merged_in_failed_call = True
         if merged_in_failed_call:
             return "retry-reimports-stored-blocks"
-    if cls in ("Import-from-gap", "Merge-gap", "IsFinished-before-stored"):
+    if cls in ("Import-from-gap", "Merge-gap", "IsFinished-before-stored", "Store-not-linked"):
         if any(e["a"] == "RemovePrev" and e["removed"] == 1 for e in upto):
             return "removed-prev-block-not-reimported"
     return cls
